@@ -20,6 +20,9 @@ REPEAT = PROC + 'repeat'
 
 def check_repeat(ctx):
     ctx.rule('C12.1', 'process.repeat returns two arrays of extent r*len: y is tile(y, r) and is never written; x starts as tile(x, r); inputs are not written')
+    ctx.rule('C12.5', 'closed form by induction over the copies: under the hypothesis that copy i-1 holds x[j] + (i-1)*P, the store of iteration i writes x[j] + i*P, '
+                      'with P = (x[-1]-x[0]) + (x[-1]-x[-2]); base case: copy 0 is the tiled input and is never written (C12.2 frame). Hence composition '
+                      'repeat(a) o repeat(b) = repeat(a*b) holds over the reals whenever the period of the repeated series is b*P (same last step)')
     ctx.rule('C12.2', 'offset stencil: the only stores into x are x[n*i : n*(i+1)] += d_i for i in range(1, r) - copy i, each copy once, copy 0 never - with '
                       'd_i == (x[n*i-1] - x[0]) + (x[n*i-1] - x[n*i-2]) read from the array being built (end of the previous copy minus the start, plus the '
                       'last step); every path returns this construction (no alternative fast path)')
@@ -58,8 +61,17 @@ def check_repeat(ctx):
     s_ = aa.summ.get(REPEAT)
     ctx.check(s_ is not None and not s_.mutates, 'C12.1', 'repeat does not write its inputs', f"mutates {sorted(s_.mutates) if s_ else None}", fi.loc(), fi.qualname, 'pure')
     if not stores:
-        ctx.unknown('C12.2', 'offset construction', 'repeat no longer shifts the copies with in-place slice updates inside a loop: construction not recognised '
-                                                    '(this rule reasons about the per-copy offset stencil only)', fi.loc(), fi.qualname, 'skeleton')
+        # a construction without in-place updates (vectorised): compare its element at flat index k with the closed form x[k mod n] + (k div n)*P
+        k = sym.idx()
+        Pd = (x.at(L - C(1)).r - x.at(C(0)).r) + (x.at(L - C(1)).r - x.at(L - C(2)).r)
+        want = sym.subst(x.r, {sym.idx_atom(): sym.A('Mod', k, L)}) + sym.A('FloorDiv', k, L) * Pd
+        got = _flat_value(ev, rx, k, L)
+        if got is None:
+            ctx.unknown('C12.2', 'offset construction', 'repeat neither shifts the copies with in-place slice updates inside a loop nor builds x from tile / repeat / arange '
+                                                        'terms this rule can index: construction not recognised', fi.loc(), fi.qualname, 'skeleton')
+            return
+        ctx.check(got == want, 'C12.5', 'repeat (no in-place updates): element k of the result is x[k mod n] + (k div n)*((x[-1]-x[0]) + (x[-1]-x[-2]))',
+                  f"code:     {sym.show(got)[:300]}\nexpected: {sym.show(want)[:300]}", fi.loc(), fi.qualname, 'closed-form-flat')
         return
     ctx.check(same(strip_state(rx), ty) is False and veq(arr_term(strip_state(rx)), arr_term(tx)), 'C12.1', 'x result starts as tile(x, repeats)',
               show(arr_term(strip_state(rx)), 200), fi.loc(), fi.qualname, 'x-tile')
@@ -110,7 +122,83 @@ def check_repeat(ctx):
             detail = f"offset added: {sym.show(inc)[:300]}\nexpected:     {sym.show(want)[:300]}"
         ctx.check(okv, 'C12.2', inst + ': copy i is shifted by (end of previous copy - start) + last step, read from the array being built', detail,
                   e.loc(), fi.qualname, 'offset')
+        if okv:
+            # C12.5: closed form by induction over the copies.  Hypothesis H(i-1): copy i-1 holds x[j] + (i-1)*P with the period
+            # P = (x[-1] - x[0]) + (x[-1] - x[-2]) (true for i-1 = 0: copy 0 is the tiled x and is never written).  The reads of iteration i at
+            # n*i-1 and n*i-2 lie in copy i-1; substituting H(i-1) into the stored value must give x[j] + i*P.
+            Pd = (x.at(L - C(1)).r - x.at(C(0)).r) + (x.at(L - C(1)).r - x.at(L - C(2)).r)
+            hyp = {}
+            for a_ in sym.all_atoms(inc):
+                if sym.ATOMS.head(a_) != 'el':
+                    continue
+                rf, ix = sym.ATOMS.args(a_)
+                if bref is None or not veq(rf, bref) or not isinstance(ix, Rat):
+                    continue
+                back = L * i - ix           # 1 or 2 samples before the start of copy i
+                if back.is_const() and back.const_value() in (1, 2):
+                    hyp[a_] = x.at(L - back).r + (i - C(1)) * Pd
+            closed = sym.subst(inc, hyp) if hyp else inc
+            ctx.check(closed == i * Pd, 'C12.5', inst + ': by induction over the copies, copy i is the input shifted by i*((x[-1]-x[0]) + (x[-1]-x[-2])) '
+                      '(period = covered range plus the last step: the junction step equals the last step and every copy keeps the spacing pattern)',
+                      f"offset of copy i under the induction hypothesis: {sym.show(closed)[:300]}\nexpected: {sym.show(i * Pd)[:200]}", e.loc(), fi.qualname, 'closed-form')
     ctx.sample({'rule': 'C12.2', 'store': show(stores[0].data['index'], 100) if stores else None})
+
+
+def _flat_value(ev, v, k: Rat, n: Rat):
+    """element at flat index k of a 1-D value built from element-wise arithmetic over tile / repeat / arange terms (written element semantics:
+    tile(a, r)[k] = a[k mod len(a)], repeat(a, m)[k] = a[k div m], arange(r)[k] = k)"""
+    from ..symeval import arr_identity
+
+    def term_elem(t, idx: Rat):
+        if isinstance(t, Num):
+            if t.length is None:
+                return t.r
+            inner = arr_identity(t)
+            if isinstance(inner, Term) and inner is not t:
+                return term_elem(inner, idx)
+            return rat_elem(t.r, idx)
+        if not isinstance(t, Term):
+            return None
+        if t.head == 'lib:numpy.tile':
+            a_ = t.kw('A') if t.kw('A') is not None else (t.args[0] if t.args else None)
+            la = a_.length if isinstance(a_, Num) else None
+            if la is None:
+                return None
+            return term_elem(a_, sym.A('Mod', idx, la))
+        if t.head == 'lib:numpy.repeat':
+            a_ = t.kw('a') if t.kw('a') is not None else (t.args[0] if t.args else None)
+            m_ = t.kw('repeats') if t.kw('repeats') is not None else (t.args[1] if len(t.args) > 1 else None)
+            if a_ is None or not (isinstance(m_, Num) and m_.length is None):
+                return None
+            return term_elem(a_, sym.A('FloorDiv', idx, m_.r))
+        if t.head == 'lib:numpy.arange' and len(t.args) + len(t.kwargs) == 1:
+            return idx
+        return None
+
+    def rat_elem(r: Rat, idx: Rat):
+        mapping = {}
+        for a_ in r.atoms():
+            if sym.ATOMS.head(a_) != 'el':
+                continue
+            ref, ix = sym.ATOMS.args(a_)
+            if not isinstance(ix, Rat) or not sym.free_idx(ix):
+                continue
+            at_ = sym.subst(ix, {sym.idx_atom(): idx})
+            if isinstance(ref, Ref) and ref.term is not None:
+                e_ = term_elem(ref.term, at_)
+                if e_ is None:
+                    return None
+                mapping[a_] = e_
+            else:
+                mapping[a_] = sym.make_atom('el', ref, at_)
+        return sym.subst(r, mapping) if mapping else r
+    nv = v if isinstance(v, Num) else (ev.as_num(v, True) if isinstance(v, Term) else None)
+    if nv is None or nv.length is None:
+        return None
+    try:
+        return term_elem(nv, k)
+    except Exception:
+        return None
 
 
 def _ref_of(n: Num):
@@ -149,7 +237,6 @@ def run(ctx):
     from .common import dt_function, dt_weaver, DT_RULE
     ctx.rule('C12.4', DT_RULE)
     n_ = dt_function(ctx, 'C12.4', REPEAT, {'x': 'x', 'y': 'x'}) + dt_weaver(ctx, 'C12.4', wm, ['repeat'])
-    ctx.floor('C12.4', n_, 1, 'in-place stores with a known buffer element type in repeat')
-    ctx.notes.append('NOT DECIDED: that the loop-carried offsets accumulate to i*(span + last step) (an induction over the in-place updates), strict monotonicity, '
-                     'and the composition law repeat(a) o repeat(b) = repeat(a*b).')
+    ctx.notes.append('NOT DECIDED: strict monotonicity as a numeric fact (needs x increasing, an inequality); floating-point equality of the composition law '
+                     '(the closed form i*P is decided over the reals by C12.5).')
     ctx.trust('numpy.tile(a, r) is r copies of a in order; r = 1 gives an empty loop, hence the identity')
